@@ -1,5 +1,6 @@
 //! VClock, GCounter, PNCounter, GSet, LWWReg, MaxReg, MinReg adapters.
 use crate::dump::Dump;
+use crate::rng::Rng;
 use crate::sut::*;
 use crdts::{CmRDT, CvRDT, GCounter, GSet, LWWReg, MaxReg, MinReg, PNCounter, ResetRemove, VClock};
 use std::collections::BTreeSet;
@@ -18,7 +19,10 @@ impl Sut for VC {
     fn new() -> Self {
         VClock::new()
     }
-    fn gen(&self, actor: A, _cmd: (u8, u8, u8), sh: &mut Shadow, _old: &Self) -> Option<Gen<Self::Op>> {
+    fn random_cmd(_rng: &mut Rng, _sh: &Shadow) -> Cmd {
+        Cmd::new("inc", vec![])
+    }
+    fn gen(&self, actor: A, _cmd: &Cmd, sh: &mut Shadow, _old: &Self) -> Option<Gen<Self::Op>> {
         let op = self.inc(actor);
         let want = sh.take_dot(actor);
         let mut g = Gen::new(op, format!("inc({actor})"));
@@ -65,15 +69,15 @@ impl Sut for VC {
 }
 
 // ---------------- GCounter / PNCounter ----------------
-fn steps_of(cmd: (u8, u8, u8)) -> u64 {
-    match cmd.1 % 8 {
+fn random_steps(rng: &mut Rng) -> u64 {
+    match rng.below(8) {
         0 => 0,
         1 => 1,
         2 => 2,
         3 => 7,
         4 => 1 << 20,
         5 => (1u64 << 40) + 3,
-        _ => (cmd.2 % 5) as u64,
+        _ => rng.below(5) as u64,
     }
 }
 fn count_spec(inp: &SpecIn, neg: bool) -> u128 {
@@ -97,11 +101,18 @@ impl Sut for GC {
     fn new() -> Self {
         GCounter::new()
     }
-    fn gen(&self, actor: A, cmd: (u8, u8, u8), sh: &mut Shadow, _old: &Self) -> Option<Gen<Self::Op>> {
-        let (op, steps, d) = if cmd.0 % 2 == 0 {
+    fn random_cmd(rng: &mut Rng, _sh: &Shadow) -> Cmd {
+        if rng.chance(1, 2) {
+            Cmd::new("inc", vec![])
+        } else {
+            Cmd::new("inc_many", vec![random_steps(rng)])
+        }
+    }
+    fn gen(&self, actor: A, cmd: &Cmd, sh: &mut Shadow, _old: &Self) -> Option<Gen<Self::Op>> {
+        let (op, steps, d) = if cmd.k == "inc" {
             (self.inc(actor), 1, "inc".to_string())
         } else {
-            let s = steps_of(cmd);
+            let s = cmd.arg(0);
             (self.inc_many(actor, s), s, format!("inc_many({s})"))
         };
         sh.totals[actor as usize][0] += steps as u128;
@@ -141,12 +152,20 @@ impl Sut for PN {
     fn new() -> Self {
         PNCounter::new()
     }
-    fn gen(&self, actor: A, cmd: (u8, u8, u8), sh: &mut Shadow, _old: &Self) -> Option<Gen<Self::Op>> {
-        let s = steps_of(cmd);
-        let (op, neg, steps, d) = match cmd.0 % 4 {
-            0 => (self.inc(actor), false, 1, "inc".to_string()),
-            1 => (self.dec(actor), true, 1, "dec".to_string()),
-            2 => (self.inc_many(actor, s), false, s, format!("inc_many({s})")),
+    fn random_cmd(rng: &mut Rng, _sh: &Shadow) -> Cmd {
+        match rng.below(4) {
+            0 => Cmd::new("inc", vec![]),
+            1 => Cmd::new("dec", vec![]),
+            2 => Cmd::new("inc_many", vec![random_steps(rng)]),
+            _ => Cmd::new("dec_many", vec![random_steps(rng)]),
+        }
+    }
+    fn gen(&self, actor: A, cmd: &Cmd, sh: &mut Shadow, _old: &Self) -> Option<Gen<Self::Op>> {
+        let s = cmd.arg(0);
+        let (op, neg, steps, d) = match cmd.k.as_str() {
+            "inc" => (self.inc(actor), false, 1, "inc".to_string()),
+            "dec" => (self.dec(actor), true, 1, "dec".to_string()),
+            "inc_many" => (self.inc_many(actor, s), false, s, format!("inc_many({s})")),
             _ => (self.dec_many(actor, s), true, s, format!("dec_many({s})")),
         };
         sh.totals[actor as usize][neg as usize] += steps as u128;
@@ -187,8 +206,11 @@ impl Sut for GS {
     fn new() -> Self {
         GSet::new()
     }
-    fn gen(&self, _actor: A, cmd: (u8, u8, u8), _sh: &mut Shadow, _old: &Self) -> Option<Gen<Self::Op>> {
-        let e = (cmd.1 % 6) as u32;
+    fn random_cmd(rng: &mut Rng, _sh: &Shadow) -> Cmd {
+        Cmd::new("insert", vec![rng.below(6) as u64])
+    }
+    fn gen(&self, _actor: A, cmd: &Cmd, _sh: &mut Shadow, _old: &Self) -> Option<Gen<Self::Op>> {
+        let e = cmd.arg(0) as u32;
         let mut g = Gen::new(e, format!("insert({e})"));
         g.facts.push(Fact::Elem(e as i64));
         Some(g)
@@ -230,11 +252,20 @@ impl Sut for LWW {
     fn new() -> Self {
         LWWReg::default()
     }
-    fn gen(&self, actor: A, cmd: (u8, u8, u8), sh: &mut Shadow, _old: &Self) -> Option<Gen<Self::Op>> {
+    fn random_cmd(rng: &mut Rng, sh: &Shadow) -> Cmd {
+        if sh.misuse {
+            // misuse configuration: few markers, reused with different values
+            Cmd::new("write_marker", vec![rng.below(3) as u64 + 1, rng.below(2) as u64])
+        } else {
+            Cmd::new("write", vec![rng.below(4) as u64])
+        }
+    }
+    fn gen(&self, actor: A, cmd: &Cmd, sh: &mut Shadow, _old: &Self) -> Option<Gen<Self::Op>> {
         let val = sh.uniq();
         // unique marker, *not* monotone in issue order: band chosen at random, uniq breaks ties
-        let marker = if sh.misuse { ((cmd.1 % 3) as u64 + 1, 0u8) } else { ((cmd.1 % 4) as u64 * 100_000 + val as u64, actor) };
-        let val = if sh.misuse { (cmd.2 % 2) as u32 } else { val };
+        let misuse = cmd.k == "write_marker";
+        let marker = if misuse { (cmd.arg(0), 0u8) } else { (cmd.arg(0) * 100_000 + val as u64, actor) };
+        let val = if misuse { cmd.arg(1) as u32 } else { val };
         let op = LWWReg::new(val, marker);
         let mut g = Gen::new(op, format!("write({val}, marker {marker:?})"));
         g.facts.push(Fact::Lww { val, marker });
@@ -269,8 +300,11 @@ impl Sut for LWW {
 }
 
 // ---------------- MaxReg / MinReg ----------------
-fn small_val(cmd: (u8, u8, u8)) -> i32 {
-    match cmd.1 % 9 {
+fn random_small(rng: &mut Rng) -> Cmd {
+    Cmd::new("write", vec![rng.below(9) as u64])
+}
+fn small_val(cmd: &Cmd) -> i32 {
+    match cmd.arg(0) {
         7 => i32::MAX,
         8 => i32::MIN,
         x => x as i32 - 3,
@@ -284,7 +318,10 @@ impl Sut for MAX {
     fn new() -> Self {
         MaxReg::default()
     }
-    fn gen(&self, _actor: A, cmd: (u8, u8, u8), _sh: &mut Shadow, _old: &Self) -> Option<Gen<Self::Op>> {
+    fn random_cmd(rng: &mut Rng, _sh: &Shadow) -> Cmd {
+        random_small(rng)
+    }
+    fn gen(&self, _actor: A, cmd: &Cmd, _sh: &mut Shadow, _old: &Self) -> Option<Gen<Self::Op>> {
         let v = small_val(cmd);
         let mut g = Gen::new(self.write(v), format!("write({v})"));
         g.facts.push(Fact::Elem(v as i64));
@@ -319,7 +356,10 @@ impl Sut for MIN {
     fn new() -> Self {
         MinReg::default()
     }
-    fn gen(&self, _actor: A, cmd: (u8, u8, u8), _sh: &mut Shadow, _old: &Self) -> Option<Gen<Self::Op>> {
+    fn random_cmd(rng: &mut Rng, _sh: &Shadow) -> Cmd {
+        random_small(rng)
+    }
+    fn gen(&self, _actor: A, cmd: &Cmd, _sh: &mut Shadow, _old: &Self) -> Option<Gen<Self::Op>> {
         let v = small_val(cmd);
         let mut g = Gen::new(self.write(v), format!("write({v})"));
         g.facts.push(Fact::Elem(v as i64));
